@@ -50,7 +50,7 @@ REQUIRED_MONITORS = ["inside-point-is-located", "located-cell-contains-point", "
 REQUIRED_REACH = ["point:vertex", "point:facet", "point:interior", "point:hole", "point:outside-box",
                   "finder-fallback-search-all", "vector-valued-element", "tensor-valued-element", "coefficient-dtypes",
                   "single-point-sequence", "query-array-updated-in-place", "more-than-2^14-points", "offset-along-one-axis",
-                  "restricted-basis-probed", "batch-with-one-outside-point", "global-element-probed",
+                  "restricted-basis-probed", "restricted-basis-cells-in-other-orders", "batch-with-one-outside-point", "global-element-probed",
                   "query-array-forms", "points-on-simplex-split-loci",
                   "layout-ndim:2", "layout-ndim:3", "layout-ndim:4", "layout-ndim:5", "layout:fortran-order-with-trailing-axes",
                   "layout:fortran-contiguous", "layout:transposed-view", "layout:component-axis-last-in-memory",
@@ -476,6 +476,26 @@ def probes_case(ctx, k, kind):
                 ctx.check("probes-equal-local-expansion", False, mech="probes-on-basis-restricted-to-a-cell-subset",
                           error=repr(e)[:200], **tag)
             ctx.reached("restricted-basis-probed")
+            # the same cells listed in another order (reversed, permuted, two concatenated tags): the same function
+            for oname, So in (("reversed", S[::-1].copy()), ("permuted", S[rng.permutation(S.size)]),
+                              ("two-tags", ["b", "a"])):
+                try:
+                    if oname == "two-tags":
+                        half = S.size // 2
+                        mt = mesh.with_subdomains({"a": S[:half], "b": S[half:]})
+                        bO = skfem.CellBasis(mt, rec.make(), elements=So)
+                    else:
+                        bO = skfem.CellBasis(mesh, rec.make(), elements=So)
+                    gO = np.asarray(bO.probes(x[:, inS]) @ y).reshape(tshape + (int(inS.sum()),))
+                    ctx.close("probes-equal-local-expansion", gO, ref[..., inS], rtol=rt, scale=scale,
+                              mech=f"probes-on-restricted-basis:cells-listed-{oname}", subset=int(S.size), **tag)
+                    vO = np.asarray(bO.interpolator(y)(x[:, inS])).reshape(tshape + (int(inS.sum()),))
+                    ctx.close("probes-equal-local-expansion", vO, ref[..., inS], rtol=rt, scale=scale,
+                              mech=f"interpolator-on-restricted-basis:cells-listed-{oname}", subset=int(S.size), **tag)
+                except IndexError as e:
+                    ctx.check("probes-equal-local-expansion", False, mech=f"probes-on-restricted-basis:cells-listed-{oname}",
+                              error=repr(e)[:200], **tag)
+            ctx.reached("restricted-basis-cells-in-other-orders")
     # a batch that contains one point outside the mesh raises, wherever that point stands in the batch
     if d >= 1 and x.shape[1] >= 2:
         lo, hi = P.min(axis=1), P.max(axis=1)
